@@ -19,39 +19,69 @@ theorem fileOf_append_length (d rs : List WalEntry) :
   omega
 
 /-- below the size limit `append` is plain concatenation -/
-theorem walAppend_fits (maxSize maxRot : Nat) (w : WalFiles) (p : List Nat)
-    (h : w.cur.length + (encodeRec crc p).length ≤ maxSize) :
-    walAppend crc maxSize maxRot w p = { w with cur := w.cur ++ encodeRec crc p } := by
+theorem walAppend_fits (c : WalCfg) (w : WalFiles) (p : List Nat)
+    (h : w.cur.length + (encodeRec crc p).length ≤ c.maxSize) :
+    walAppend crc c w p = some { w with cur := w.cur ++ encodeRec crc p } := by
   unfold walAppend
-  have : ¬ (w.cur.length + (encodeRec crc p).length > maxSize) := by omega
+  have : ¬ (w.cur.length + (encodeRec crc p).length > c.maxSize) := by omega
   simp only [this, if_false]
 
-/-- above it, the live file is replaced by one holding just the new record -/
-theorem walAppend_rotates (maxSize maxRot : Nat) (w : WalFiles) (p : List Nat)
-    (h : w.cur.length + (encodeRec crc p).length > maxSize) :
-    walAppend crc maxSize maxRot w p
-      = { cur := encodeRec crc p, rotated := (w.cur :: w.rotated).take (max maxRot 1) } := by
+/-- above it, with `auto_rotate`, the live file is replaced by one holding just the new record -/
+theorem walAppend_rotates (c : WalCfg) (w : WalFiles) (p : List Nat) (ha : c.autoRotate = true)
+    (h : w.cur.length + (encodeRec crc p).length > c.maxSize) :
+    walAppend crc c w p
+      = some { cur := encodeRec crc p, rotated := (w.cur :: w.rotated).take (max c.maxRot 1) } := by
   unfold walAppend
-  simp only [h, if_true]
+  simp only [h, if_true, ha]
 
-theorem walAppendAll_fits (maxSize maxRot : Nat) (old : List (List Nat)) (d rs : List WalEntry)
-    (h : (fileOf crc ser (d ++ rs)).length ≤ maxSize) :
-    walAppendAll crc maxSize maxRot { cur := fileOf crc ser d, rotated := old } (rs.map ser)
+/-- without `auto_rotate` an append either is refused or extends the live file; nothing is moved away -/
+theorem walAppend_noRotate (c : WalCfg) (w : WalFiles) (p : List Nat) (ha : c.autoRotate = false) :
+    walAppend crc c w p = none
+      ∨ walAppend crc c w p = some { w with cur := w.cur ++ encodeRec crc p } := by
+  unfold walAppend
+  simp only [ha, Bool.false_eq_true, if_false]
+  by_cases h : w.cur.length + (encodeRec crc p).length > c.maxSize
+  · left; simp only [h, if_true]
+  · right; simp only [h, if_false]
+
+theorem walAppendAll_fits (c : WalCfg) (old : List (List Nat)) (d rs : List WalEntry)
+    (h : (fileOf crc ser (d ++ rs)).length ≤ c.maxSize) :
+    walAppendAll crc c { cur := fileOf crc ser d, rotated := old } (rs.map ser)
       = { cur := fileOf crc ser (d ++ rs), rotated := old } := by
   induction rs generalizing d with
   | nil => simp [walAppendAll]
   | cons r rs ih =>
     have e : d ++ r :: rs = (d ++ [r]) ++ rs := by simp
-    have hle : (fileOf crc ser (d ++ [r])).length ≤ maxSize := by
+    have hle : (fileOf crc ser (d ++ [r])).length ≤ c.maxSize := by
       have := fileOf_append_length crc ser (d ++ [r]) rs
       rw [← e] at this; omega
     simp only [walAppendAll, List.map_cons, List.foldl_cons]
-    rw [walAppend_fits crc maxSize maxRot _ _ (by
+    rw [walAppend_fits crc c _ _ (by
       rw [fileOf_snoc, List.length_append] at hle; exact hle)]
     have := ih (d ++ [r]) (by rw [← e]; exact h)
     simp only [walAppendAll] at this
-    simp only [← fileOf_snoc]
+    simp only [Option.getD_some, ← fileOf_snoc]
     rw [this, ← e]
+
+/-- without `auto_rotate`, whatever is appended: the live file is the encoding of a SUBLIST-in-order of
+    the records (the accepted ones) appended to what it held, and the rotated files are untouched -/
+theorem walAppendAll_noRotate (c : WalCfg) (ha : c.autoRotate = false) (w : WalFiles) (ps : List (List Nat)) :
+    ∃ acc : List (List Nat), acc.Sublist ps
+      ∧ walAppendAll crc c w ps = { cur := w.cur ++ encodeAll crc acc, rotated := w.rotated } := by
+  induction ps generalizing w with
+  | nil => exact ⟨[], List.Sublist.slnil, by simp [walAppendAll, encodeAll]⟩
+  | cons p ps ih =>
+    simp only [walAppendAll, List.foldl_cons]
+    rcases walAppend_noRotate crc c w p ha with h | h
+    · rw [h]
+      obtain ⟨acc, hs, he⟩ := ih w
+      exact ⟨acc, List.Sublist.cons _ hs, by simpa [walAppendAll] using he⟩
+    · rw [h]
+      obtain ⟨acc, hs, he⟩ := ih { w with cur := w.cur ++ encodeRec crc p }
+      refine ⟨p :: acc, List.Sublist.cons_cons _ hs, ?_⟩
+      simp only [walAppendAll, Option.getD_some] at he ⊢
+      rw [he]
+      simp [encodeAll]
 
 theorem recover_single (h : GoodSer crc ser deser) (r : WalEntry) :
     recoverBytes crc deser (encodeRec crc (ser r)) = .ok (fromEntries [r]) 1 .clean := by
